@@ -88,9 +88,13 @@ package jsonschema
 //@   pure
 //@   ensures result1 ==> result0 != nil
 //@   ensures result1 ==> fresh(result0)
+//@   ensures[C08,C11] isnum: shaped(v) && kind(v) != 20 && kind(v) != 22 ==> result1 == isJNum(jv(v))
+//@   ensures[C08,C11] value: shaped(v) && result1 ==> RatVal[result0] == jn(jv(v))
 
 //@ contract jsonType(v)
 //@   pure
+//@   ensures[C08] total: shaped(v) && kind(v) != 20 && kind(v) != 22 ==> result1
+//@   ensures[C08] name: shaped(v) && kind(v) != 20 && kind(v) != 22 ==> result0 == typeName(jv(v))
 
 //@ contract hashValue(h, v)
 //@   requires new(h) && shaped(v)
